@@ -54,6 +54,9 @@ def gen_cases(tier, seed):
                 c["copies"] = 2
         else:
             c.update(intw=rnd.choice([1, 1, 0]), components=rnd.choice([1, 1, 1, 2, 3]))
+        # logical-step budget from the size: consolidate/cut loops make O((k + log N) N) steps per source, N sources per thread count
+        # (measured 1.3e8 at N=1200, k=5, 5 thread counts); the fixed 1e8 was reported as non-termination there
+        c["ticks"] = max(100000000, 40 * (k + 10) * N * N * 6)
         add(**c)
     niso = 1500 if thorough else 110
     for i in range(niso):
